@@ -20,6 +20,8 @@ open Carquet.Spec.Thrift Carquet.Impl.ThriftParquet
 
 abbrev Fields := List (Int × TVal)
 
+/-- one field -/
+def f1 (id : Int) (v : TVal) : Fields := [(id, v)]
 def fOpt {α : Type} (id : Int) (mk : α → TVal) (o : Option α) : Fields :=
   match o with
   | none => []
@@ -33,9 +35,9 @@ def statisticsTV (s : Statistics) : TVal :=
     fOpt 4 .i64 s.distinctCount ++ fBinNonEmpty 5 s.maxValue ++ fBinNonEmpty 6 s.minValue)
 
 def timeUnitTV (u : TimeUnit) : TVal :=
-  .struct [((match u with | .millis => 1 | .micros => 2 | .nanos => 3), .struct [])]
+  .struct (f1 (match u with | .millis => 1 | .micros => 2 | .nanos => 3) (.struct []))
 
-def timeTV (utc : Bool) (u : TimeUnit) : TVal := .struct [(1, .bool utc), (2, timeUnitTV u)]
+def timeTV (utc : Bool) (u : TimeUnit) : TVal := .struct (f1 1 (.bool utc) ++ f1 2 (timeUnitTV u))
 
 /-- the LogicalType union: exactly one member (none for UNKNOWN) -/
 def logicalTypeTV (lt : LogicalType) : TVal :=
@@ -45,11 +47,11 @@ def logicalTypeTV (lt : LogicalType) : TVal :=
     | .map => [(2, .struct [])]
     | .list => [(3, .struct [])]
     | .enum => [(4, .struct [])]
-    | .decimal scale precision => [(5, .struct [(1, .i32 scale), (2, .i32 precision)])]
+    | .decimal scale precision => [(5, .struct (f1 1 (.i32 scale) ++ f1 2 (.i32 precision)))]
     | .date => [(6, .struct [])]
     | .time utc u => [(7, timeTV utc u)]
     | .timestamp utc u => [(8, timeTV utc u)]
-    | .integer bw sg => [(10, .struct [(1, .i8 bw), (2, .bool sg)])]
+    | .integer bw sg => [(10, .struct (f1 1 (.i8 bw) ++ f1 2 (.bool sg)))]
     | .null => [(11, .struct [])]
     | .json => [(12, .struct [])]
     | .bson => [(13, .struct [])]
@@ -69,51 +71,51 @@ def schemaElementTV (s : SchemaElement) : TVal :=
 
 /-- a NULL key is written as the empty string -/
 def keyValueTV (kv : KeyValue) : TVal :=
-  .struct ((1, .binary (kv.key.getD [])) :: fOpt 2 .binary kv.value)
+  .struct (f1 1 (.binary (kv.key.getD [])) ++ fOpt 2 .binary kv.value)
 
 def columnMetaDataTV (m : ColumnMetaData) : TVal :=
-  .struct ([(1, .i32 m.type), (2, .list .i32 (m.encodings.map .i32)), (3, .list .binary (m.pathInSchema.map .binary)),
-    (4, .i32 m.codec), (5, .i64 m.numValues), (6, .i64 m.totalUncompressedSize), (7, .i64 m.totalCompressedSize),
-    (9, .i64 m.dataPageOffset)] ++ fOpt 10 .i64 m.indexPageOffset ++ fOpt 11 .i64 m.dictionaryPageOffset ++
+  .struct (f1 1 (.i32 m.type) ++ f1 2 (.list .i32 (m.encodings.map .i32)) ++ f1 3 (.list .binary (m.pathInSchema.map .binary)) ++
+    f1 4 (.i32 m.codec) ++ f1 5 (.i64 m.numValues) ++ f1 6 (.i64 m.totalUncompressedSize) ++ f1 7 (.i64 m.totalCompressedSize) ++
+    f1 9 (.i64 m.dataPageOffset) ++ fOpt 10 .i64 m.indexPageOffset ++ fOpt 11 .i64 m.dictionaryPageOffset ++
     fOpt 12 statisticsTV m.statistics ++ fOpt 14 .i64 m.bloomFilterOffset ++ fOpt 15 .i32 m.bloomFilterLength)
 
 def columnChunkTV (c : ColumnChunk) : TVal :=
-  .struct (fOpt 1 .binary c.filePath ++ [(2, .i64 c.fileOffset)] ++ fOpt 3 columnMetaDataTV c.metaData ++
+  .struct (fOpt 1 .binary c.filePath ++ f1 2 (.i64 c.fileOffset) ++ fOpt 3 columnMetaDataTV c.metaData ++
     fOpt 4 .i64 c.offsetIndexOffset ++ fOpt 5 .i32 c.offsetIndexLength ++ fOpt 6 .i64 c.columnIndexOffset ++
     fOpt 7 .i32 c.columnIndexLength)
 
 def rowGroupTV (g : RowGroup) : TVal :=
-  .struct ([(1, .list .struct (g.columns.map columnChunkTV)), (2, .i64 g.totalByteSize), (3, .i64 g.numRows)] ++
+  .struct (f1 1 (.list .struct (g.columns.map columnChunkTV)) ++ f1 2 (.i64 g.totalByteSize) ++ f1 3 (.i64 g.numRows) ++
     fOpt 5 .i64 g.fileOffset ++ fOpt 6 .i64 g.totalCompressedSize ++ fOpt 7 .i16 g.ordinal)
 
 def fKeyValues (kvs : List KeyValue) : Fields :=
-  if kvs.isEmpty then [] else [(5, .list .struct (kvs.map keyValueTV))]
+  if kvs.isEmpty then [] else f1 5 (.list .struct (kvs.map keyValueTV))
 
 /-- the Thrift value of a FileMetaData (the members carquet serialises) -/
 def fileMetaDataTV (m : FileMetaData) : TVal :=
-  .struct ([(1, .i32 m.version), (2, .list .struct (m.schema.map schemaElementTV)), (3, .i64 m.numRows),
-    (4, .list .struct (m.rowGroups.map rowGroupTV))] ++ fKeyValues m.keyValueMetadata ++ fOpt 6 .binary m.createdBy)
+  .struct (f1 1 (.i32 m.version) ++ f1 2 (.list .struct (m.schema.map schemaElementTV)) ++ f1 3 (.i64 m.numRows) ++
+    f1 4 (.list .struct (m.rowGroups.map rowGroupTV)) ++ fKeyValues m.keyValueMetadata ++ fOpt 6 .binary m.createdBy)
 
 def dataPageHeaderTV (h : DataPageHeader) : TVal :=
-  .struct ([(1, .i32 h.numValues), (2, .i32 h.encoding), (3, .i32 h.definitionLevelEncoding),
-    (4, .i32 h.repetitionLevelEncoding)] ++ fOpt 5 statisticsTV h.statistics)
+  .struct (f1 1 (.i32 h.numValues) ++ f1 2 (.i32 h.encoding) ++ f1 3 (.i32 h.definitionLevelEncoding) ++
+    f1 4 (.i32 h.repetitionLevelEncoding) ++ fOpt 5 statisticsTV h.statistics)
 
 def dataPageHeaderV2TV (h : DataPageHeaderV2) : TVal :=
-  .struct [(1, .i32 h.numValues), (2, .i32 h.numNulls), (3, .i32 h.numRows), (4, .i32 h.encoding),
-    (5, .i32 h.definitionLevelsByteLength), (6, .i32 h.repetitionLevelsByteLength), (7, .bool h.isCompressed)]
+  .struct (f1 1 (.i32 h.numValues) ++ f1 2 (.i32 h.numNulls) ++ f1 3 (.i32 h.numRows) ++ f1 4 (.i32 h.encoding) ++
+    f1 5 (.i32 h.definitionLevelsByteLength) ++ f1 6 (.i32 h.repetitionLevelsByteLength) ++ f1 7 (.bool h.isCompressed))
 
 def dictionaryPageHeaderTV (h : DictionaryPageHeader) : TVal :=
-  .struct [(1, .i32 h.numValues), (2, .i32 h.encoding), (3, .bool h.isSorted)]
+  .struct (f1 1 (.i32 h.numValues) ++ f1 2 (.i32 h.encoding) ++ f1 3 (.bool h.isSorted))
 
 def fPageMember (h : PageHeader) : Fields :=
-  if h.type = pageData then [(5, dataPageHeaderTV h.dataPageHeader)]
-  else if h.type = pageDataV2 then [(8, dataPageHeaderV2TV h.dataPageHeaderV2)]
-  else if h.type = pageDictionary then [(7, dictionaryPageHeaderTV h.dictionaryPageHeader)]
+  if h.type = pageData then f1 5 (dataPageHeaderTV h.dataPageHeader)
+  else if h.type = pageDataV2 then f1 8 (dataPageHeaderV2TV h.dataPageHeaderV2)
+  else if h.type = pageDictionary then f1 7 (dictionaryPageHeaderTV h.dictionaryPageHeader)
   else []
 
 /-- the Thrift value of a PageHeader: the member named by `type` -/
 def pageHeaderTV (h : PageHeader) : TVal :=
-  .struct ([(1, .i32 h.type), (2, .i32 h.uncompressedPageSize), (3, .i32 h.compressedPageSize)] ++
+  .struct (f1 1 (.i32 h.type) ++ f1 2 (.i32 h.uncompressedPageSize) ++ f1 3 (.i32 h.compressedPageSize) ++
     fOpt 4 .i32 h.crc ++ fPageMember h)
 
 end Carquet.Spec.ParquetThrift
